@@ -21,7 +21,9 @@ Simple == { Q("$", <<Child(SName(a_)), Child(SWild)>>), Q("$", <<Child(SName(b_)
             Q("$", <<Child(SName(a_)), Child(SFilter(ECmp(">", OQ(Q("@", <<>>)), OLit(IntV(1)))))>>),
             \* a fake-root operand and one that reads the caller's filter context
             Q("^", <<Child(SFilter(ETest(Q("@", <<Child(SName(a_))>>)))), Child(SName(a_)), Child(SWild)>>),
-            Q("$", <<Child(SName(b_)), Child(SFilter(ECmp(">=", OQ(Q("@", <<>>)), OQ(Q("_", <<Child(SName(lim_))>>)))))>>) }
+            Q("$", <<Child(SName(b_)), Child(SFilter(ECmp(">=", OQ(Q("@", <<>>)), OQ(Q("_", <<Child(SName(lim_))>>)))))>>),
+            \* an operand that calls a function (looked up in the environment's registry when it is evaluated)
+            Q("$", <<Child(SName(a_)), Child(SFilter(ECmp("==", OFn("count", <<OQ(Q("@", <<Child(SWild)>>))>>), OLit(IntV(0)))))>>) }
 \* no boolean/number look-alike pairs: the statement does not say which equality "also produced" means
 DocSeq == << Obj(<<a_, b_, c_>>, <<Arr(<<IntV(1), IntV(2), IntV(3), IntV(2)>>), Arr(<<IntV(2), IntV(3), IntV(4)>>), IntV(3)>>),
              Obj(<<a_, b_>>, <<Arr(<<S(a_), Arr(<<IntV(1)>>), Obj(<<c_>>, <<IntV(2)>>), IntV(2)>>), Arr(<<Arr(<<IntV(1)>>), S(a_), Obj(<<c_>>, <<IntV(2)>>)>>)>>),
